@@ -348,8 +348,13 @@ def C(v):
 
 
 def L(label):
-    """marks an atom that is itself an array along a new axis (logspace, arange, compress ...)"""
+    """marks an atom that is itself an array along an axis (logspace, arange, compress, argsort, rev ...)"""
     return ('L', label)
+
+
+def array_fn(name, label, p, *extra, out=None):
+    """an array-valued function of a whole axis: the atom varies along ``out`` (default: the same axis) and binds ``label`` in its argument"""
+    return mk_fn(name, L(out if out is not None else label), B(label, p), *extra)
 
 
 def sym(name, *labels):
@@ -357,7 +362,7 @@ def sym(name, *labels):
 
 
 # interpolation is linear in its table values (third argument)
-LINEAR_FNS = {'interp': 2, 'lininterp': 2, 'at': 0, 'rev': 0}   # name -> position of the argument they are linear in
+LINEAR_FNS = {'interp': 2, 'lininterp': 2, 'rev': 1}   # name -> position of the argument they are linear in
 
 
 def mk_fn(name, *args):
@@ -386,9 +391,8 @@ def mk_fn(name, *args):
             v = int(p.const_value())
             return Poly.const(Fraction(10) ** v if v >= 0 else Fraction(1, 10 ** (-v)))
     if name == 'at' and len(args) == 2 and args[0][0] == 'B' and args[1][0] == 'P' and args[0][1]:
-        # x[i] with i the running index of that very axis is the generic element
-        if Poly.from_key(args[1][1]) == Poly.atom(('sym', 'idx:' + str(args[0][1]), (args[0][1],))):
-            return Poly.from_key(args[0][2])
+        # gathering is substitution of the axis by the index: canonical form has `at` around leaf arrays only
+        return index_at(Poly.from_key(args[0][2]), args[0][1], Poly.from_key(args[1][1]))
     if name in LINEAR_FNS and len(args) > LINEAR_FNS[name] and args[LINEAR_FNS[name]][0] == 'B':
         k = LINEAR_FNS[name]
         lab, fp = args[k][1], Poly.from_key(args[k][2])
@@ -401,13 +405,13 @@ def mk_fn(name, *args):
                 a2 = ('B', lab, Poly({dep: Fraction(1)}).key())
                 out = out + Poly({ind: c}) * mk_fn(name, *(tuple(args[:k]) + (a2,) + tuple(args[k + 1:])))
             return out
-    if name == 'rev' and len(args) == 1 and args[0][0] == 'B':
-        inner = Poly.from_key(args[0][2])
+    if name == 'rev' and len(args) == 2 and args[0][0] == 'L' and args[1][0] == 'B':
+        inner = Poly.from_key(args[1][2])
         if inner.is_monomial():
             (m, c), = inner.t.items()
-            if c == 1 and len(m) == 1 and m[0][1] == 1 and m[0][0][0] == 'fn' and m[0][0][1] == 'rev' and m[0][0][2][0] == 'B' \
-                    and m[0][0][2][1] == args[0][1]:
-                return Poly.from_key(m[0][0][2][2])        # rev(rev(x)) = x
+            if c == 1 and len(m) == 1 and m[0][1] == 1 and m[0][0][0] == 'fn' and m[0][0][1] == 'rev' and len(m[0][0]) == 4 and m[0][0][3][0] == 'B' \
+                    and m[0][0][3][1] == args[1][1]:
+                return Poly.from_key(m[0][0][3][2])        # rev(rev(x)) = x
     if name in ('max', 'min', 'nanmax', 'nanmin') and len(args) == 1 and args[0][0] == 'B':
         inner = Poly.from_key(args[0][2])
         if inner.is_monomial():
@@ -661,48 +665,70 @@ def count(label):
 
 # ---------------------------------------------------------------- rebuild / substitute
 
-def shift_index(p, label, k):
-    """The term for position i+k of axis ``label`` given the term for the generic position i:
-    free occurrences x[i] become x[i+k]; explicit x[i+j] become x[i+j+k]; bound occurrences are untouched."""
-    idx = Poly.atom(('sym', 'idx:' + str(label), (label,)))
+def index_at(p, label, idx):
+    """The element of the term ``p`` at position ``idx`` of axis ``label``: gathering commutes with every element-wise
+    operation, so the index is pushed down to the leaves: free occurrences x[label] become at(label -> x, idx);
+    occurrences bound by a reduction / gather over the same label are untouched."""
+    idx = _coerce(idx)
+    run = Poly.atom(('sym', 'idx:' + str(label), (label,)))
+    memo = {}
 
     def go(q):
+        k_ = q.key()
+        if k_ in memo:
+            return memo[k_]
         out = Poly()
         for m, c in q.t.items():
             term = Poly.const(c)
             for a, e in m:
                 term = term * go_atom(a).pow(e)
             out = out + term
+        memo[k_] = out
         return out
 
-    def go_atom(a):
-        kind = a[0]
-        if kind == 'sym':
-            if a[1] == 'idx:' + str(label):
-                return idx + k
-            if label in a[2]:
-                if k == 0:
-                    return Poly.atom(a)
-                return mk_fn('at', B(label, Poly.atom(a)), P(idx + k))
+    def leaf(a):
+        if idx == run:
             return Poly.atom(a)
-        if kind == 'sum':
-            return Poly.atom(a) if a[1] == label else sum_over(go(Poly.from_key(a[2])), a[1])
-        if kind == 'pow':
-            return go(Poly.from_key(a[1])).pow(a[2])
-        if kind == 'ind':
-            return mk_ind(a[1], go(Poly.from_key(a[2])))
-        if kind == 'fn':
-            args = []
-            for x in a[2:]:
-                if x[0] == 'P':
-                    args.append(P(go(Poly.from_key(x[1]))))
-                elif x[0] == 'B':
-                    args.append(x if x[1] == label else B(x[1], go(Poly.from_key(x[2]))))
-                else:
-                    args.append(x)
-            return mk_fn(a[1], *args)
-        return Poly.atom(a)
+        return Poly.atom(('fn', 'at', ('B', label, Poly.atom(a).key()), ('P', idx.key())))
+
+    def go_atom(a):
+        if a in memo:
+            return memo[a]
+        kind = a[0]
+        if label not in atom_labels(a):
+            r = Poly.atom(a)
+        elif kind == 'sym':
+            r = idx if a[1] == 'idx:' + str(label) else leaf(a)
+        elif kind == 'sum':
+            r = sum_over(go(Poly.from_key(a[2])), a[1])          # a[1] != label here (label is free in a)
+        elif kind == 'pow':
+            r = go(Poly.from_key(a[1])).pow(a[2])
+        elif kind == 'ind':
+            r = mk_ind(a[1], go(Poly.from_key(a[2])))
+        elif kind == 'fn':
+            if any(x[0] == 'L' and x[1] == label for x in a[2:]):
+                r = leaf(a)                                          # an array-valued atom along this axis
+            else:
+                args = []
+                for x in a[2:]:
+                    if x[0] == 'P':
+                        args.append(P(go(Poly.from_key(x[1]))))
+                    elif x[0] == 'B':
+                        args.append(x if x[1] == label else B(x[1], go(Poly.from_key(x[2]))))
+                    else:
+                        args.append(x)
+                r = mk_fn(a[1], *args)
+        else:
+            r = Poly.atom(a)
+        memo[a] = r
+        return r
     return go(p)
+
+
+def shift_index(p, label, k):
+    """The term for position i+k of axis ``label`` given the term for the generic position i."""
+    run = Poly.atom(('sym', 'idx:' + str(label), (label,)))
+    return index_at(p, label, run + k)
 
 
 def rebuild(p, f, post=None, _memo=None):
